@@ -541,6 +541,7 @@ func c04CorrTable(p *Prog, r *Report) {
 		}
 	}
 	r.Ob("corr-table:leap", p.Pos(fi.Decl.Pos()), okLeap, det)
+	c04CorrArms(p, r, fi, dayP)
 	// call site: the flag is 'year of the record divisible by 4' (the model's leap rule, 1901–2099)
 	tf := p.Funcs["hermes.WeatherDataShared.transformWeatherData"]
 	okSite, detSite := false, "call site not found"
@@ -1599,4 +1600,100 @@ func c04TodayIndex(p *Prog, r *Report) {
 	if n == 0 {
 		r.Ob("reads", "-", false, "no read of a per-day weather array found")
 	}
+}
+
+// c04CorrArms: the thresholds alone do not say which month's factor an arm returns.  Demanded: the month lookup is an
+// if / else-if chain on the day parameter with ascending constant thresholds, arm i stores element i of the receiver
+// table into the result, the final else stores element (number of thresholds), and the stored variable is returned.
+func c04CorrArms(p *Prog, r *Report, fi *FuncInfo, dayP types.Object) {
+	info := fi.Pkg.TypesInfo
+	var chain *ast.IfStmt
+	for _, st := range fi.Decl.Body.List {
+		if ifs, ok := st.(*ast.IfStmt); ok && ifs.Else != nil {
+			chain = ifs
+		}
+	}
+	if chain == nil || dayP == nil {
+		r.Ob("corr-table:arms", p.Pos(fi.Decl.Pos()), false, "no if / else-if chain on the day of the year found")
+		return
+	}
+	var recv types.Object
+	if fi.Decl.Recv != nil && len(fi.Decl.Recv.List) == 1 && len(fi.Decl.Recv.List[0].Names) == 1 {
+		recv = info.Defs[fi.Decl.Recv.List[0].Names[0]]
+	}
+	var res types.Object
+	store := func(b *ast.BlockStmt) (int64, bool) {
+		if b == nil || len(b.List) != 1 {
+			return 0, false
+		}
+		as, ok := b.List[0].(*ast.AssignStmt)
+		if !ok || as.Tok != token.ASSIGN || len(as.Lhs) != 1 || len(as.Rhs) != 1 {
+			return 0, false
+		}
+		ix, ok := stripParens(as.Rhs[0]).(*ast.IndexExpr)
+		if !ok || recv == nil || useObj(info, ix.X) != recv {
+			return 0, false
+		}
+		o := useObj(info, as.Lhs[0])
+		if o == nil || (res != nil && o != res) {
+			return 0, false
+		}
+		res = o
+		return exprInt64(info, ix.Index)
+	}
+	ok, det := true, ""
+	var thr, idx []int64
+	cur := chain
+	for cur != nil && ok {
+		be, isB := stripParens(cur.Cond).(*ast.BinaryExpr)
+		if !isB || be.Op != token.LSS || useObj(info, be.X) != dayP {
+			ok, det = false, "a condition of the chain is not 'day < constant': "+types.ExprString(cur.Cond)
+			break
+		}
+		c, isC := exprInt64(info, be.Y)
+		k, isK := store(cur.Body)
+		if !isC || !isK {
+			ok, det = false, "an arm is not 'result = table[constant]' under a constant threshold: "+types.ExprString(cur.Cond)
+			break
+		}
+		thr, idx = append(thr, c), append(idx, k)
+		switch e := cur.Else.(type) {
+		case *ast.IfStmt:
+			cur = e
+		case *ast.BlockStmt:
+			k, isK := store(e)
+			if !isK {
+				ok, det = false, "the final else is not 'result = table[constant]'"
+			}
+			idx = append(idx, k)
+			cur = nil
+		default:
+			ok, det = false, "the chain has no final else: days of the last month get no factor"
+			cur = nil
+		}
+	}
+	for i := 0; ok && i < len(idx); i++ {
+		if idx[i] != int64(i) {
+			ok, det = false, fmt.Sprintf("arm %d (month %d) stores element %d of the table", i, i+1, idx[i])
+		}
+		if i > 0 && i < len(thr) && thr[i] <= thr[i-1] {
+			ok, det = false, fmt.Sprintf("thresholds not ascending along the chain: %v", thr)
+		}
+	}
+	if ok {
+		returned := false
+		ast.Inspect(fi.Decl.Body, func(n ast.Node) bool {
+			if rs, isR := n.(*ast.ReturnStmt); isR && len(rs.Results) == 1 && useObj(info, rs.Results[0]) == res {
+				returned = true
+			}
+			return true
+		})
+		if !returned {
+			ok, det = false, "the stored factor is not what the lookup returns"
+		}
+	}
+	if ok {
+		det = fmt.Sprintf("chain thresholds %v, arms store elements %v in order, result returned", thr, idx)
+	}
+	r.Ob("corr-table:arms", p.Pos(chain.Pos()), ok, det)
 }
